@@ -238,6 +238,13 @@ func c14Decode(entry int, data []byte, tail error, tm map[string]reflect.Type, n
 					stop = true
 					return
 				}
+				if b, ok := r.(blockedSentinel); ok {
+					res.class = "c14/blocked"
+					res.key = siteFunc(b.site)
+					res.detail = fmt.Sprintf("the decoder waits for a lock that is never released (taken at or before %s and left locked by an earlier call in this process - e.g. one that ended in a recovered panic); with a single caller nobody can release it: the call would never return", siteString(b.site))
+					stop = true
+					return
+				}
 				res.class = "c14/panic"
 				res.key = innermostLibFrame()
 				res.detail = fmt.Sprintf("panic: %v", r)
@@ -298,6 +305,11 @@ func c14Decode(entry int, data []byte, tail error, tm map[string]reflect.Type, n
 	res.alloc = a1 - a0
 	if rd != nil {
 		res.readsAfter = rd.ReadsAfter
+	}
+	if clock.blocked && (res.class == "" || res.class == "c14/panic") {
+		res.class = "c14/blocked"
+		res.key = siteFunc(clock.blockedSite)
+		res.detail = fmt.Sprintf("the decoder waits for a lock that is never released (at %s; left locked by an earlier call in this process, e.g. one that ended in a recovered panic); with a single caller nobody can release it: the call would never return", siteString(clock.blockedSite))
 	}
 	if clock.exceeded && res.class == "" {
 		site := clock.exSite
